@@ -135,10 +135,10 @@ def cross(ck, q, *names):
                 book_gen(ck, "x_long_queue_" + side, Ops=["cap"], Sides=[side], Prices=[10], Vols=[1, 2], Kinds=["L"], MaxOrders=10, MaxOps=10,
                          need=(), timeout=300)
         elif nm == "coarse_grid":
-            # coarse-grid regime (DESIGN.md 3.6): a tick size of 10^9 (prices 0, 1, 2, 3 ticks = up to 3 * 10^9, level walks that leave
+            # coarse-grid regime (DESIGN.md 3.6): a tick size of 2 * 10^9 (prices 2, 3 and 4 * 10^9, the middle one off the grid; level walks that leave
             # the 32-bit range after the first step), off-grid creations next to on-grid ones
-            book_gen(ck, "x_coarse_grid", cfg=GEN, Ops=["cap", "cancel", "modify"], Tick=2, NLevels=3, Prices=[2, 3, 4, 6], Vols=[1, 2], Kinds=["L", "M"] if not q else ["L"], ModPrices=[-1, 4],
-                     ModVols=["none", "smaller"], price_scale=500000000, MaxOrders=3, MaxOps=4 if q else 5, need=("has_trade", "two_sided", "op_modify", "create_rejected"),
+            book_gen(ck, "x_coarse_grid", cfg=GEN, Ops=["cap", "cancel", "modify"], Tick=2, NLevels=3, Prices=[2, 3, 4], Vols=[1, 2], Kinds=["L", "M"], ModPrices=[-1, 4],
+                     ModVols=["none", "smaller"], price_scale=1000000000, MaxOrders=3, MaxOps=4 if q else 5, need=("has_trade", "two_sided", "op_modify", "create_rejected"),
                      timeout=300 if q else 1500)
         elif nm == "big_volumes":
             # large-volume regime (DESIGN.md 3.6): one specification unit of volume is 1.3 * 10^9 in the real book, so single volumes
